@@ -220,6 +220,12 @@ class Parser:
         t = self.peek()
         if t[0] == "num":
             self.take()
+            if self.at_op("..="):
+                self.take()
+                hi = self.take()
+                if hi[0] != "num":
+                    raise Unsupported("range pattern bound")
+                return ("prange", t[1], hi[1])
             return ("pnum", t[1])
         if t[0] == "str":
             self.take()
